@@ -1,6 +1,6 @@
 (* C01 — Log content fidelity: nothing lost, nothing invented, nothing altered. *)
 From KV Require Import Base Model Spec SpecFacts LogInv ConsumeProofs GetProofs AbsFacts PublishProofs
-     DeleteProofs OpenProofs ReadsPreserve History.
+     DeleteProofs OpenProofs ReadsPreserve History Helpers ScanProofs.
 
 (* Every history of API calls — Open in any mode (Check / Recover / EagerVersionMigrate, read-write or
    read-only, any rollover size and format version), Close, Publish, Delete, every read, index-file removal,
@@ -56,3 +56,12 @@ Proof.
   destruct (log_open_ok H st1 c0 (conj Hop (conj Hv HD)) Hne st2 Ho) as (I2 & A2). split; [exact I2|congruence].
 Qed.
 Print Assumptions C01_reopen.
+
+(* the observation the property names: reading the log from the oldest offset to the end (Consume with the cursor fed
+   back) yields exactly the live messages, each once, in order, and ends at NextOffset *)
+Theorem C01_full_scan_reads_the_live_messages :
+  forall (H : bytes -> Z) st max, Inv st -> 1 <= max ->
+  exists st', full_scan H (S (S (length (live (abs st))))) st OffsetOldest max [] = Ok (st', live (abs st), anext (abs st)) /\
+              Inv st' /\ abs st' = abs st.
+Proof. exact full_scan_correct. Qed.
+Print Assumptions C01_full_scan_reads_the_live_messages.
